@@ -41,6 +41,27 @@ type guardSpec struct {
 	guarded []string // DECLARED guarded fields (properties.jsonl, C20 anchors.state)
 	infer   bool     // additionally INFER guarded fields (see inferGuards)
 	tag     string   // prefix of the emitted names when the struct name is not unique across packages
+	// notification analysis only: a struct without mutex whose methods drive a component of another
+	// package (field name -> struct name of the component) and notify through a callback field
+	noMutex    bool
+	components map[string]string
+}
+
+// notifier: callback field, the guarded fields its consumer's fetcher reads, strict (an unconditional
+// last write needs an unconditional last notification), name prefix of the notifying struct's functions.
+// adsChangedCallback is invoked per CHANGED service from a loop in a deferred closure, so it is
+// conditional by design: order only.
+var notifiers = []string{
+	`("countersChangedCallback", ["Allocator.poolToCounters"], true, "Allocator.")`,
+	`("adsChangedCallback", ["bgpController.activeAds"], false, "bgpController.")`,
+	`("onStatusChange", ["Announce.ips"], true, "layer2Controller.")`,
+}
+
+var notifySpecs = []guardSpec{
+	{file: "internal/allocator/allocator.go", strct: "Allocator", mutex: "countersMutex", guarded: []string{"poolToCounters"}},
+	{file: "speaker/bgp_controller.go", strct: "bgpController", mutex: "activeAdsMutex", guarded: []string{"activeAds"}},
+	{file: "internal/layer2/announcer.go", strct: "Announce", guarded: []string{"nodeInterfaces", "arps", "ndps", "ips", "ipRefcnt"}},
+	{file: "speaker/layer2_controller.go", strct: "layer2Controller", noMutex: true, components: map[string]string{"announcer": "Announce"}},
 }
 
 // The mutex-carrying structs of the code the property's anchors touch.  For the first four the
@@ -49,15 +70,15 @@ type guardSpec struct {
 // (other than a constructor, i.e. a function building the struct with a composite literal)
 // writes it while holding that mutex exclusively by its own Lock()  —  see inferGuards.
 var specs = []guardSpec{
-	{"internal/k8s/listener.go", "Listener", "", nil, false, ""},
-	{"internal/allocator/allocator.go", "Allocator", "countersMutex", []string{"poolToCounters"}, true, ""},
-	{"speaker/bgp_controller.go", "bgpController", "activeAdsMutex", []string{"activeAds"}, true, ""},
-	{"internal/layer2/announcer.go", "Announce", "", []string{"nodeInterfaces", "arps", "ndps", "ips", "ipRefcnt"}, true, ""},
-	{"internal/bgp/frr/frr.go", "sessionManager", "", nil, true, "frr"},
-	{"internal/bgp/frrk8s/frrk8s.go", "sessionManager", "", nil, true, "frrk8s"},
-	{"internal/bgp/native/native.go", "session", "mu", nil, true, "native"},
-	{"internal/speakerlist/speakerlist.go", "SpeakerList", "mlMux", nil, true, ""},
-	{"internal/k8s/controllers/frrk8s_config_controller.go", "FRRK8sReconciler", "", nil, true, ""},
+	{"internal/k8s/listener.go", "Listener", "", nil, false, "", false, nil},
+	{"internal/allocator/allocator.go", "Allocator", "countersMutex", []string{"poolToCounters"}, true, "", false, nil},
+	{"speaker/bgp_controller.go", "bgpController", "activeAdsMutex", []string{"activeAds"}, true, "", false, nil},
+	{"internal/layer2/announcer.go", "Announce", "", []string{"nodeInterfaces", "arps", "ndps", "ips", "ipRefcnt"}, true, "", false, nil},
+	{"internal/bgp/frr/frr.go", "sessionManager", "", nil, true, "frr", false, nil},
+	{"internal/bgp/frrk8s/frrk8s.go", "sessionManager", "", nil, true, "frrk8s", false, nil},
+	{"internal/bgp/native/native.go", "session", "mu", nil, true, "native", false, nil},
+	{"internal/speakerlist/speakerlist.go", "SpeakerList", "mlMux", nil, true, "", false, nil},
+	{"internal/k8s/controllers/frrk8s_config_controller.go", "FRRK8sReconciler", "", nil, true, "", false, nil},
 }
 
 // the status fetchers handed to the status reconcilers (they run outside the Listener mutex)
@@ -109,6 +130,7 @@ type fileCtx struct {
 	sname                           string                       // emitted struct name (tag/strct)
 	inlinedClosures                 map[string]bool
 	spawnSites                      map[string][]string // function -> functions containing the go statement starting it
+	marks                           bool                // bracket conditionally executed blocks with CondB / CondE (notification analysis)
 	savedUnstructured, savedMayLeak []string
 	plain                           map[string]string // package-level function name -> qualified name
 }
@@ -291,13 +313,84 @@ func main() {
 	b.WriteString("Definition inferable : list (string * string) := " + pairList(inferable) + ".\n")
 	b.WriteString("\nDefinition funcs : list (string * list instr) := [\n")
 	for i, f := range allFuncs {
-		var items []string
-		for _, in := range f.ir {
-			items = append(items, fmt.Sprintf("%s %q", in.op, in.arg))
-		}
-		b.WriteString(fmt.Sprintf("  (%q, [%s])%s\n", f.name, strings.Join(items, "; "), sep(i, len(allFuncs))))
+		b.WriteString(fmt.Sprintf("  (%q, [%s])%s\n", f.name, irString(f.ir), sep(i, len(allFuncs))))
 	}
 	b.WriteString("].\n\n")
+	// the program for the notification analysis: same translation with conditional blocks bracketed
+	var nfuncs []namedIR
+	var nentries []string
+	seenN := map[string]bool{}
+	for _, sp := range notifySpecs {
+		savedU, savedL, savedP := unstructured, mayLeak, problems
+		fc := load(repo, sp)
+		if fc != nil {
+			if !sp.noMutex {
+				fc.inferGuards()
+				for _, g := range sp.guarded {
+					fc.guarded[g] = true
+				}
+			}
+			fc.marks = true
+			irs, names := fc.translateAll()
+			interesting := map[string]bool{}
+			for changed := true; changed; {
+				changed = false
+				for _, n := range names {
+					if interesting[n] {
+						continue
+					}
+					for _, i := range irs[n] {
+						if i.op == "CondB" || i.op == "CondE" {
+							continue
+						}
+						if i.op != "Call" || interesting[i.arg] || crossCall(i.arg) {
+							interesting[n] = true
+							changed = true
+							break
+						}
+					}
+				}
+			}
+			called := map[string]bool{}
+			for _, n := range names {
+				for _, i := range irs[n] {
+					if i.op == "Call" && i.arg != n {
+						called[i.arg] = true
+					}
+				}
+			}
+			for _, n := range names {
+				if !interesting[n] || seenN[n] {
+					continue
+				}
+				seenN[n] = true
+				var ir []instr
+				for _, i := range irs[n] {
+					if i.op == "Call" && !interesting[i.arg] && !crossCall(i.arg) {
+						continue
+					}
+					ir = append(ir, i)
+				}
+				nfuncs = append(nfuncs, namedIR{n, ir})
+				base := n[strings.LastIndex(n, ".")+1:]
+				if strings.Contains(n, "$") || (base != "" && base[0] >= 'A' && base[0] <= 'Z') || fc.spawned[n] || fc.valueUsed[n] || !called[n] {
+					nentries = append(nentries, n)
+				}
+			}
+		}
+		unstructured, mayLeak = savedU, savedL
+		if sp.noMutex {
+			problems = savedP
+		}
+	}
+	b.WriteString("(* the same translation with conditionally executed blocks bracketed, for the notification analysis *)\n")
+	b.WriteString("Definition nfuncs : list (string * list instr) := [\n")
+	for i, f := range nfuncs {
+		b.WriteString(fmt.Sprintf("  (%q, [%s])%s\n", f.name, irString(f.ir), sep(i, len(nfuncs))))
+	}
+	b.WriteString("].\nDefinition nentries : list string := " + strList(nentries) + ".\n")
+	b.WriteString("(* callback, fields its consumer's fetcher reads, strict?, prefix of the notifying struct's functions *)\n")
+	b.WriteString("Definition notifiers : list (string * list string * bool * string) := [\n  " + strings.Join(notifiers, ";\n  ") + "\n].\n\n")
 	var binds [][2]string
 	if bindingOK {
 		for k, v := range callbackBinding {
@@ -612,7 +705,7 @@ func load(repo string, sp guardSpec) *fileCtx {
 						}
 					}
 				}
-				if !haveMutex {
+				if !haveMutex && !sp.noMutex {
 					problem("%s: struct %s has no mutex %q of type sync.Mutex/RWMutex", sp.file, sp.strct, sp.mutex)
 				}
 				for _, g := range sp.guarded {
@@ -820,6 +913,14 @@ func (w *walker) callee(fun ast.Expr) string {
 	case *ast.SelectorExpr:
 		if g, ok := fc.methods[t.Sel.Name]; ok && w.typedBase(t.X) {
 			return g
+		}
+		// <ident>.<component field>.<method>: a method of the component (another package)
+		if inner, ok := t.X.(*ast.SelectorExpr); ok {
+			if _, ok := inner.X.(*ast.Ident); ok {
+				if comp := fc.spec.components[inner.Sel.Name]; comp != "" {
+					return comp + "." + t.Sel.Name
+				}
+			}
 		}
 	}
 	return ""
@@ -1190,6 +1291,9 @@ func (w *walker) stmts(list []ast.Stmt, top bool, defers *[][]instr) []instr {
 	if len(open) > 0 && !top {
 		unstructured = append(unstructured, w.name+": a nested block acquires a lock it does not release")
 	}
+	if !top && fc.marks && len(ir) > 0 {
+		ir = append(append([]instr{{"CondB", ""}}, ir...), instr{"CondE", ""})
+	}
 	return ir
 }
 
@@ -1465,6 +1569,13 @@ func crossCall(g string) bool {
 			return true
 		}
 	}
+	for _, sp := range notifySpecs {
+		for _, comp := range sp.components {
+			if strings.HasPrefix(g, comp+".") {
+				return true
+			}
+		}
+	}
 	return false
 }
 
@@ -1583,4 +1694,16 @@ func skeletonOf(fd *ast.FuncDecl) string {
 		items = append(items, fmt.Sprintf("(%d, %v, %v, %v)", l.depth, l.ret, l.brk, l.cont))
 	}
 	return fmt.Sprintf("(%v, [%s])", topReturn, strings.Join(items, "; "))
+}
+
+func irString(ir []instr) string {
+	var items []string
+	for _, in := range ir {
+		if in.op == "CondB" || in.op == "CondE" {
+			items = append(items, in.op)
+		} else {
+			items = append(items, fmt.Sprintf("%s %q", in.op, in.arg))
+		}
+	}
+	return strings.Join(items, "; ")
 }
